@@ -116,7 +116,7 @@ func TestTransportWideNumbersGapFree(t *testing.T) {
 		}
 		nStreams := rapid.IntRange(1, 4).Draw(t, "streams")
 		nWriters := rapid.IntRange(1, 8).Draw(t, "writers")
-		total := rapid.SampledFrom([]int{66000, 70000, 131200}).Draw(t, "total")
+		wantNumbered := rapid.SampledFrom([]int{66000, 70000, 131200}).Draw(t, "numbered")
 		type stream struct {
 			negotiated bool
 			id         uint8
@@ -143,6 +143,8 @@ func TestTransportWideNumbersGapFree(t *testing.T) {
 		}
 		// per-writer plans are fixed before the goroutines start (all randomness from rapid)
 		shapeSeed := rapid.Uint64().Draw(t, "shapeSeed")
+		// packets are spread evenly over the streams: send enough that the negotiated ones cross the 2^16 wrap
+		total := (wantNumbered*nStreams + negotiatedStreams - 1) / negotiatedStreams * 21 / 20
 		per := total / nWriters
 		var wg sync.WaitGroup
 		for w := 0; w < nWriters; w++ {
